@@ -105,6 +105,7 @@ class Sym:
         self.env: Dict[str, Any] = dict(env or {})
         self.locals = set(locals_)
         self._cenv = {n: UNKNOWN for n in self.locals}
+        self.inline = None     # optional hook: (sym, call node) -> Lin | None, inlines small pure package helpers
 
     @staticmethod
     def for_function(prog: Program, fn) -> "Sym":
@@ -127,7 +128,9 @@ class Sym:
         return Sym(prog, fn.module, None, names)
 
     def copy(self) -> "Sym":
-        return Sym(self.prog, self.mod, self.env, self.locals)
+        s = Sym(self.prog, self.mod, self.env, self.locals)
+        s.inline = self.inline
+        return s
 
     def bind(self, name: str, value: Any):
         self.env[name] = value
@@ -221,6 +224,28 @@ class Sym:
                     if k.arg == "signed":
                         signed = _constv(self, k.value, None)
                 return Lin.of_term(("int", self.term(e.args[0]), order, signed))
+            if isinstance(f, ast.Attribute) and f.attr == "to_bytes" and (e.args or e.keywords):
+                # x.to_bytes(n, byteorder, signed=...)  /  int.to_bytes(x, length=n, ...)
+                args = list(e.args)
+                if isinstance(f.value, ast.Name) and f.value.id == "int" and args:
+                    val, args = args[0], args[1:]
+                else:
+                    val = f.value
+                n = _constv(self, args[0], None) if args else None
+                order = _constv(self, args[1], None) if len(args) > 1 else "big"
+                signed = False
+                for k in e.keywords:
+                    if k.arg == "length":
+                        n = _constv(self, k.value, None)
+                    elif k.arg == "byteorder":
+                        order = _constv(self, k.value, None)
+                    elif k.arg == "signed":
+                        signed = _constv(self, k.value, None)
+                return Lin.of_term(("tobytes", _t(self.lin(val)), n, order, signed))
+            if self.inline is not None:
+                r = self.inline(self, e)
+                if r is not None:
+                    return r
             name = norm(f)
             return Lin.of_term(("call", name, tuple(self.term(a) for a in e.args) + tuple((k.arg, self.term(k.value)) for k in e.keywords)))
         if isinstance(e, ast.Constant):
@@ -260,7 +285,17 @@ class Sym:
                 return Fact("opaque", None, (norm(l), type(op).__name__, norm(r), outcome))
         if isinstance(op, (ast.Is, ast.IsNot)):
             return Fact("opaque", None, (norm(l), type(op).__name__, norm(r), outcome))
-        d = self.lin(l) - self.lin(r)
+        ll, rl = self.lin(l), self.lin(r)
+        if isinstance(op, (ast.Eq, ast.NotEq)):
+            lt_, rt_ = ll.single_term(), rl.single_term()
+            for a, b in ((lt_, rt_), (rt_, lt_)):
+                if a is not None and b is not None and a[0] == "tobytes" and b[0] == "slice" and a[2] is not None:
+                    # X.to_bytes(n, order, signed) == data[i:j]   <=>   X == int.from_bytes(data[i:j], order, signed)
+                    # (defined only while X fits n bytes - totality of to_bytes is checked separately)
+                    inner = a[1][1] if a[1][0] == "lin" else Lin.of_term(a[1])
+                    ll, rl = inner, Lin.of_term(("int", b, a[3], bool(a[4])))
+                    break
+        d = ll - rl
         name = {ast.Eq: "==", ast.NotEq: "!=", ast.Lt: "<", ast.LtE: "<=", ast.Gt: ">", ast.GtE: ">="}[type(op)]
         if not outcome:
             name = {"==": "!=", "!=": "==", "<": ">=", "<=": ">", ">": "<=", ">=": "<"}[name]
